@@ -231,6 +231,16 @@ func c10Worker(ctx *rt.Ctx, job *rt.Job) []*rt.Violation {
 		if job.Shard == 0 {
 			ctx.Cov.Sample(1, map[string]any{"space": "values", "max_len": a.Len, "alphabet": c10ValueAlphabet})
 		}
+	case "placeholders":
+		for _, pnum := range []int{1, 2, 9, 10, 99, 1000, 2147483646, 2147483647} {
+			l := model.Eq("a", fmt.Sprintf("$%d", pnum))
+			for _, t := range []*model.Expr{l, model.Not(l), model.And(l, model.Eq("b", "x")), model.Or(model.Not(l), l)} {
+				if !check(c10Case{Tree: t}, true) || !check(c10Case{Tree: t, GroupBy: []string{"a"}}, true) {
+					return vs
+				}
+			}
+		}
+		ctx.Cov.Sample(1, map[string]any{"space": "placeholders", "example": "a = $2147483647"})
 	case "groupby":
 		trees := []*model.Expr{leaves[0], model.Not(model.Or(leaves[0], leaves[1])), model.And(model.Or(leaves[2], leaves[0]), leaves[1])}
 		for _, gb := range lists([]string{"a", "b1", "Z_9"}, 0, 3) {
@@ -267,9 +277,10 @@ func c10Run(ctx *rt.Ctx) []*rt.Violation {
 		add(c10Args{Space: "values", Len: 4}, 2)
 	}
 	add(c10Args{Space: "groupby"}, 1)
+	add(c10Args{Space: "placeholders"}, 1)
 	outs := rt.RunJobs(ctx, jobs, rt.SpawnOpt{})
 	vs := rt.Collect(ctx, outs, nil)
-	ctx.Cov.Note("rule", "every tree of the stated depth/arity over 3 leaves (literal, placeholder, value with quote and newline; single-operand and directly nested same-operator nodes included), every value string up to the stated length over {quote, a, newline, é, space, backslash} in three positions, every group-by list of length 0..3 over 3 identifiers on 3 trees: parse(format(t)) must succeed and be equal to t after flattening/unwrapping, group-by equal, and format(parse(s1)) == s1 for s1 = format(parse(format(t))); non-trivial = trees with >=2 operators, all value and group-by cases")
+	ctx.Cov.Note("rule", "every tree of the stated depth/arity over 3 leaves (literal, placeholder, value with quote and newline; single-operand and directly nested same-operator nodes included), every value string up to the stated length over {quote, a, newline, é, space, backslash} in three positions, every group-by list of length 0..3 over 3 identifiers on 3 trees, placeholder numbers {1,2,9,10,99,1000,2^31-2,2^31-1} in 4 tree shapes: parse(format(t)) must succeed and be equal to t after flattening/unwrapping, group-by equal, and format(parse(s1)) == s1 for s1 = format(parse(format(t))); non-trivial = trees with >=2 operators, all value and group-by cases")
 	ctx.Assumef("column names are valid identifiers and AND/OR nodes have >=1 operand (property precondition)")
 	return vs
 }
